@@ -891,14 +891,18 @@ theorem idFacts_of_atomLine {attrs : List Attrs} {items : List Item} {i : Nat} (
       split_ifs at hw with h0
       cases hw
       exact ⟨_, by omega, rfl⟩
-    cases hl : Contracts.V2000.lastWins (Contracts.V2000.entriesOf (items.filterMap Item.parsed) .iso) i with
-    | none => rw [hl] at hv; exact old v hv
-    | some w =>
-      rw [hl] at hv
-      simp only at hv
-      split_ifs at hv with h0
-      · exact old v hv
-      · cases hv; exact pos_of "mass" (by simp) w h0 hv'
+    -- a mass from the atom block (D / T) stays whatever the ISO lines say; otherwise the last ISO entry
+    cases ho : attrs[i].get? "mass" with
+    | some m => rw [ho] at hv; exact old v (ho.trans hv)
+    | none =>
+      rw [ho] at hv
+      cases hl : Contracts.V2000.lastWins (Contracts.V2000.entriesOf (items.filterMap Item.parsed) .iso) i with
+      | none => rw [hl] at hv; cases hv
+      | some w =>
+        rw [hl] at hv
+        simp only at hv
+        split_ifs at hv with h0
+        cases hv; exact pos_of "mass" (by simp) w h0 hv'
   · intro v hv
     rw [v2get_of_lt hi] at hv
     have hv' := hv
